@@ -365,7 +365,7 @@ func gen(t *rapid.T) Case {
 	if h.Thorough() {
 		depth = rapid.IntRange(2, 4).Draw(t, "depth")
 	}
-	o := schemagen.Options{Depth: depth, Formats: true, StringyEnum: rapid.Bool().Draw(t, "stringy"), OddNames: true, ReadWrite: true}
+	o := schemagen.Options{Depth: depth, Formats: true, ExtraFormats: []string{"x-wrapped-ip", "x-wrapped-ip"}, StringyEnum: rapid.Bool().Draw(t, "stringy"), OddNames: true, ReadWrite: true}
 	schemas := map[string]string{}
 	var s map[string]any
 	if rapid.IntRange(0, 3).Draw(t, "shape") == 0 {
